@@ -484,3 +484,237 @@ Example C07_encw_ctr_never_wraps_nonvacuous :
   | _ => False
   end.
 Proof. vm_compute. reflexivity. Qed.
+(* ---------- Tie A level 1, work package cmdsT2 (tools/src2v3_cmds.py -> gen/Src3m.v): the KEY HANDLING of the mlar command line.
+   readerconfig_from_matches, open_mla_file and open_failsafe_mla_file of mlar/src/main.rs, translated statement by statement, with
+   the library calls instantiated by the model's functions, ARE Cli.cli_open / CliRepair.repair_open behind the loading of the -k
+   files (theories/SrcTie3Cmds2Open.v); config_from_matches IS SrcTie3Cmds2Cfg.config_spec (which recipients a new archive gets).
+   "A private key given for an archive that is not encrypted is refused" holds of the translated code, for list / cat / to-tar /
+   convert / extract (open_mla_file) and for repair (open_failsafe_mla_file), before either from_config is reached.
+   Free in every statement: the -k / -p paths, the file system function that opens them, the key parsers.  DOMAIN: arg <> Some []
+   (clap's -k takes at least one value; for Some [] the source expects ENCRYPT with no key, Cli.key_given [] = false). ---------- *)
+From MLAGen Require Src3m.
+From MLA Require Import Format Cli CliRepair.
+From MLA Require SrcTie3Cmds2Open SrcTie3Cmds2Cfg SrcTie3Cmds2Made.
+
+(* readerconfig_from_matches (translated): without -k the empty configuration; with -k the loaded candidate keys AND the expectation ENCRYPT; a key file that cannot be opened / read / parsed is a panic *)
+Theorem C07_tie_readerconfig_from_matches_src :
+  forall (KPath : Type) (fs_open_key : KPath -> Src3m.World -> res bytes) (parse_privkey : bytes -> res bytes)
+      (site : N -> N) (arg : option (list KPath)) (w : Src3m.World),
+    Src3m.readerconfig_from_matches KPath arg fs_open_key parse_privkey site w =
+    (w,
+     match arg with
+     | Some _ =>
+         match SrcTie3Cmds2Open.cli_keys KPath fs_open_key parse_privkey site arg w with
+         | Ok ks => Ok (SrcTie3Cmds2Open.rc_of ks)
+         | Err e => Err e
+         | Crash x => Crash x
+         end
+     | None => Ok Src3m.rc_new
+     end).
+Proof. exact SrcTie3Cmds2Open.readerconfig_from_matches_src. Qed.
+
+(* the expectation ENCRYPT is set exactly when the -k option is there *)
+Theorem C07_tie_readerconfig_expects_encrypt :
+  forall (KPath : Type) (fs_open_key : KPath -> Src3m.World -> res bytes) (parse_privkey : bytes -> res bytes)
+      (site : N -> N) (arg : option (list KPath)) (w : Src3m.World) (c : Src3m.ReaderConfig),
+    snd (Src3m.readerconfig_from_matches KPath arg fs_open_key parse_privkey site w) = Ok c ->
+    Src3m.rc_contains c Src3m.ENCRYPT = Src3m.is_some arg.
+Proof. exact SrcTie3Cmds2Open.readerconfig_expects_encrypt. Qed.
+
+(* open_mla_file (translated) = Cli.cli_open behind the key loading: header first, the refusal, THEN ArchiveReader::from_config with the candidate keys *)
+Theorem C07_tie_open_mla_file_src :
+  forall (CHUNK TAG BLOCK LIMIT : N) (dh : bytes -> bytes -> bytes) (kdf : bytes -> bytes)
+      (wdec wtag : bytes -> bytes -> bytes) (ksf : bytes -> bytes -> N -> N -> N)
+      (tagf : bytes -> bytes -> N -> bytes -> bytes) (dec : bytes -> bytes) (a : bytes) (KPath : Type)
+      (fs_open_key : KPath -> Src3m.World -> res bytes) (parse_privkey : bytes -> res bytes) 
+      (site : N -> N) (arg_keys : option (list KPath)) (w : Src3m.World),
+    arg_keys <> Some [] ->
+    SrcTie3Cmds2Open.open_t CHUNK TAG BLOCK LIMIT dh kdf wdec wtag ksf tagf dec a KPath fs_open_key parse_privkey site
+      arg_keys w =
+    (w,
+     match SrcTie3Cmds2Open.cli_keys KPath fs_open_key parse_privkey site arg_keys w with
+     | Ok privs => cli_open CHUNK TAG BLOCK LIMIT dh kdf wdec wtag ksf tagf dec a privs
+     | Err e => Err e
+     | Crash x => Crash x
+     end).
+Proof. exact SrcTie3Cmds2Open.open_mla_file_src. Qed.
+
+(* open_failsafe_mla_file (translated), ANY ArchiveFailSafeReader::from_config: the same policy before it; the unauthenticated switch reaches it only through the configuration *)
+Theorem C07_tie_open_failsafe_mla_file_src :
+  forall (LIMIT : N) (a : bytes) (KPath : Type) (fs_open_key : KPath -> Src3m.World -> res bytes)
+      (parse_privkey : bytes -> res bytes) (site : N -> N) (arg_keys : option (list KPath)) 
+      (FSR : Type) (ffc : SrcTie3Cmds2Open.FileM -> Src3m.ReaderConfig -> res FSR) (unauth : bool) 
+      (w : Src3m.World),
+    arg_keys <> Some [] ->
+    Src3m.open_failsafe_mla_file unit KPath SrcTie3Cmds2Open.FileM header FSR tt arg_keys unauth
+      SrcTie3Cmds2Open.fs_open_m SrcTie3Cmds2Open.file_rewind_m (SrcTie3Cmds2Open.header_from_m LIMIT a)
+      SrcTie3Cmds2Open.hdr_contains_m ffc fs_open_key parse_privkey site w =
+    (w,
+     match SrcTie3Cmds2Open.cli_keys KPath fs_open_key parse_privkey site arg_keys w with
+     | Ok privs =>
+         match read_header LIMIT a with
+         | Ok (h, _) =>
+             if key_given privs && negb (has_bit (h_layers h) L_ENCRYPT)
+             then Err EKey
+             else ffc 0 (SrcTie3Cmds2Open.fs_cfg KPath arg_keys privs unauth)
+         | Err e => Err e
+         | Crash x => Crash x
+         end
+     | Err e => Err e
+     | Crash x => Crash x
+     end).
+Proof. exact SrcTie3Cmds2Open.open_failsafe_mla_file_gen_src. Qed.
+
+(* with the model's from_config (header, load_persistent): open_failsafe_mla_file = CliRepair.repair_open *)
+Theorem C07_tie_open_failsafe_is_repair_open_src :
+  forall (LIMIT : N) (dh : bytes -> bytes -> bytes) (kdf : bytes -> bytes) (wdec wtag : bytes -> bytes -> bytes)
+      (a : bytes) (KPath : Type) (fs_open_key : KPath -> Src3m.World -> res bytes) (parse_privkey : bytes -> res bytes)
+      (site : N -> N) (arg_keys : option (list KPath)) (unauth : bool) (w : Src3m.World),
+    arg_keys <> Some [] ->
+    SrcTie3Cmds2Open.open_failsafe_t LIMIT dh kdf wdec wtag a KPath fs_open_key parse_privkey site arg_keys unauth w =
+    (w,
+     match SrcTie3Cmds2Open.cli_keys KPath fs_open_key parse_privkey site arg_keys w with
+     | Ok privs =>
+         match repair_open LIMIT dh kdf wdec wtag a privs with
+         | Ok x => Ok (x, unauth)
+         | Err e => Err e
+         | Crash x => Crash x
+         end
+     | Err e => Err e
+     | Crash x => Crash x
+     end).
+Proof. exact SrcTie3Cmds2Open.open_failsafe_mla_file_src. Qed.
+
+(* a key is given and loads, the header says `not encrypted`: open_mla_file returns PrivateKeyProvidedButNotUsed, from_config is not reached, the world is untouched — whatever the rest of the file is *)
+Theorem C07_key_for_unencrypted_refused_src :
+  forall (CHUNK TAG BLOCK LIMIT : N) (dh : bytes -> bytes -> bytes) (kdf : bytes -> bytes)
+      (wdec wtag : bytes -> bytes -> bytes) (ksf : bytes -> bytes -> N -> N -> N)
+      (tagf : bytes -> bytes -> N -> bytes -> bytes) (dec : bytes -> bytes) (a : bytes) (KPath : Type)
+      (fs_open_key : KPath -> Src3m.World -> res bytes) (parse_privkey : bytes -> res bytes) 
+      (site : N -> N) (arg_keys : option (list KPath)) (w : Src3m.World) (privs : list bytes) 
+      (h : header) (rest : bytes),
+    arg_keys <> None ->
+    arg_keys <> Some [] ->
+    SrcTie3Cmds2Open.cli_keys KPath fs_open_key parse_privkey site arg_keys w = Ok privs ->
+    read_header LIMIT a = Ok (h, rest) ->
+    has_bit (h_layers h) L_ENCRYPT = false ->
+    SrcTie3Cmds2Open.open_t CHUNK TAG BLOCK LIMIT dh kdf wdec wtag ksf tagf dec a KPath fs_open_key parse_privkey site
+      arg_keys w = (w, Err EKey).
+Proof. exact SrcTie3Cmds2Open.C07_key_for_unencrypted_refused_src. Qed.
+
+(* the same for repair (open_failsafe_mla_file) *)
+Theorem C07_repair_key_for_unencrypted_refused_src :
+  forall (LIMIT : N) (dh : bytes -> bytes -> bytes) (kdf : bytes -> bytes) (wdec wtag : bytes -> bytes -> bytes)
+      (a : bytes) (KPath : Type) (fs_open_key : KPath -> Src3m.World -> res bytes) (parse_privkey : bytes -> res bytes)
+      (site : N -> N) (arg_keys : option (list KPath)) (unauth : bool) (w : Src3m.World) (privs : list bytes)
+      (h : header) (rest : bytes),
+    arg_keys <> None ->
+    arg_keys <> Some [] ->
+    SrcTie3Cmds2Open.cli_keys KPath fs_open_key parse_privkey site arg_keys w = Ok privs ->
+    read_header LIMIT a = Ok (h, rest) ->
+    has_bit (h_layers h) L_ENCRYPT = false ->
+    SrcTie3Cmds2Open.open_failsafe_t LIMIT dh kdf wdec wtag a KPath fs_open_key parse_privkey site arg_keys unauth w =
+    (w, Err EKey).
+Proof. exact SrcTie3Cmds2Open.C07_repair_key_for_unencrypted_refused_src. Qed.
+
+(* an unreadable / unparsable key file: panic before the archive is opened *)
+Theorem C07_tie_open_mla_file_bad_key_panics_src :
+  forall (CHUNK TAG BLOCK LIMIT : N) (dh : bytes -> bytes -> bytes) (kdf : bytes -> bytes)
+      (wdec wtag : bytes -> bytes -> bytes) (ksf : bytes -> bytes -> N -> N -> N)
+      (tagf : bytes -> bytes -> N -> bytes -> bytes) (dec : bytes -> bytes) (a : bytes) (KPath : Type)
+      (fs_open_key : KPath -> Src3m.World -> res bytes) (parse_privkey : bytes -> res bytes) 
+      (site : N -> N) (arg_keys : option (list KPath)) (w : Src3m.World) (l : list KPath) (e : err),
+    arg_keys = Some l ->
+    SrcTie3Cmds2Open.load_keys KPath fs_open_key parse_privkey w l = Err e ->
+    SrcTie3Cmds2Open.open_t CHUNK TAG BLOCK LIMIT dh kdf wdec wtag ksf tagf dec a KPath fs_open_key parse_privkey site
+      arg_keys w = (w, Crash (site 1)).
+Proof. exact SrcTie3Cmds2Open.open_mla_file_bad_key_panics_src. Qed.
+
+(* on every archive made by create without the encryption layer: both opens refuse a given key *)
+Theorem C07_key_for_unencrypted_is_refused_src :
+  forall (CHUNK TAG CIPHERBUF BLOCK LIMIT FNMAX TS TC TA TE : N) (H : bytes -> bytes) (order : footer -> footer)
+      (pubk : bytes -> bytes) (dh : bytes -> bytes -> bytes) (kdf : bytes -> bytes)
+      (wenc wdec wtag : bytes -> bytes -> bytes) (ksf : bytes -> bytes -> N -> N -> N)
+      (tagf : bytes -> bytes -> N -> bytes -> bytes) (dec : bytes -> bytes),
+    0 < CHUNK ->
+    0 < TAG ->
+    0 < CIPHERBUF ->
+    0 < BLOCK ->
+    BLOCK < 2 ^ 32 ->
+    (forall x : bytes, len (H x) = 32) ->
+    (forall f : footer, Permutation.Permutation (order f) f) ->
+    (forall (k : bytes) (m : list N), len m = 32 -> wdec k (wenc k m) = m) ->
+    (forall e : bytes, len (pubk e) = 32) ->
+    (forall (k : bytes) (m : list N), len m = 32 -> len (wenc k m) = 32) ->
+    (forall k c : bytes, len (wtag k c) = 16) ->
+    forall (KPath : Type) (fs_open_key : KPath -> Src3m.World -> res bytes) (parse_privkey : bytes -> res bytes)
+      (site : N -> N) (arg_keys : option (list KPath)),
+    arg_keys <> Some [] ->
+    forall (cfg : wconfig) (ct cm : list N) (files : list (bytes * bytes)) (sf : wstate) (rs : list (res N)) 
+      (s : bytes) (privs : list bytes) (w : Src3m.World) (FSR : Type)
+      (ffc : SrcTie3Cmds2Open.FileM -> Src3m.ReaderConfig -> res FSR) (unauth : bool),
+    made_by_create CHUNK TAG BLOCK LIMIT FNMAX TS TC TA TE H order pubk dh kdf wenc wtag ksf tagf dec cfg files sf rs []
+      s ->
+    wc_encrypt cfg = false ->
+    arg_keys <> None ->
+    SrcTie3Cmds2Open.cli_keys KPath fs_open_key parse_privkey site arg_keys w = Ok privs ->
+    exists a : bytes,
+      archive_write CHUNK CIPHERBUF BLOCK LIMIT FNMAX TS TC TA TE H order pubk dh kdf wenc wtag ksf tagf cfg ct cm
+        (create_ops files) = Ok a /\
+      SrcTie3Cmds2Open.open_t CHUNK TAG BLOCK LIMIT dh kdf wdec wtag ksf tagf dec a KPath fs_open_key parse_privkey site
+        arg_keys w = (w, Err EKey) /\
+      Src3m.open_failsafe_mla_file unit KPath SrcTie3Cmds2Open.FileM header FSR tt arg_keys unauth
+        SrcTie3Cmds2Open.fs_open_m SrcTie3Cmds2Open.file_rewind_m (SrcTie3Cmds2Open.header_from_m LIMIT a)
+        SrcTie3Cmds2Open.hdr_contains_m ffc fs_open_key parse_privkey site w = (w, Err EKey).
+Proof. exact SrcTie3Cmds2Made.C07_key_for_unencrypted_is_refused_src. Qed.
+
+(* the writer side: the recipients of a new archive are exactly the keys of the -p files, in order, read only when ENCRYPT is enabled; a -p file that fails is a panic; default layers: compress AND encrypt *)
+Theorem C07_tie_config_from_matches_src :
+  forall (KPath : Type) (fs_open_key : KPath -> Src3m.World -> res bytes) (parse_pubkey : bytes -> res bytes)
+      (site : N -> N) (arg_level : option N) (arg_pubs : option (list KPath)) (arg_layers : option (list bytes))
+      (w : Src3m.World),
+    Src3m.config_from_matches KPath arg_level arg_pubs arg_layers fs_open_key parse_pubkey site w =
+    (w, SrcTie3Cmds2Cfg.config_spec KPath fs_open_key parse_pubkey site arg_level arg_pubs arg_layers w).
+Proof. exact SrcTie3Cmds2Cfg.config_from_matches_src. Qed.
+
+Print Assumptions C07_tie_readerconfig_from_matches_src.
+Print Assumptions C07_tie_readerconfig_expects_encrypt.
+Print Assumptions C07_tie_open_mla_file_src.
+Print Assumptions C07_tie_open_failsafe_mla_file_src.
+Print Assumptions C07_tie_open_failsafe_is_repair_open_src.
+Print Assumptions C07_key_for_unencrypted_refused_src.
+Print Assumptions C07_repair_key_for_unencrypted_refused_src.
+Print Assumptions C07_tie_open_mla_file_bad_key_panics_src.
+Print Assumptions C07_key_for_unencrypted_is_refused_src.
+Print Assumptions C07_tie_config_from_matches_src.
+
+(* ---------- non-vacuity (cmdsT2): an archive without any layer and without files (Archive.archive_write); the translated
+   open_mla_file and open_failsafe_mla_file RUN on it: without -k they open it, with a -k file that loads the key [1] they refuse
+   (PrivateKeyProvidedButNotUsed) and leave the world as it was ---------- *)
+Definition x07_plain : wconfig := mkWC false false (fun b => b) [] [] [] [].
+Definition x07_a : bytes :=
+  match archive_write 64 24 256 Src.BINCODE_MAX_DESERIALIZE_verif 48 0 1 2 3 (fun _ => repeat 0 32%nat) (fun f => f) (fun _ => repeat 0 32%nat)
+          (fun _ _ => []) (fun b => b) (fun _ m => m) (fun _ _ => repeat 0 16%nat) (fun _ _ _ _ => 0) (fun _ _ _ _ => repeat 0 16%nat)
+          x07_plain [] [] [] with Ok a => a | _ => [] end.
+Definition x07_open (keys : option (list unit)) :=
+  SrcTie3Cmds2Open.open_t 64 16 256 Src.BINCODE_MAX_DESERIALIZE_verif (fun _ _ => []) (fun b => b) (fun _ m => m) (fun _ _ => repeat 0 16%nat)
+    (fun _ _ _ _ => 0) (fun _ _ _ _ => repeat 0 16%nat) (fun b => b) x07_a unit (fun _ _ => Ok [1]) (fun b => Ok b) (fun k => k) keys
+    (Src3m.mkW OUntouched OUntouched []).
+Definition x07_open_failsafe (keys : option (list unit)) :=
+  SrcTie3Cmds2Open.open_failsafe_t Src.BINCODE_MAX_DESERIALIZE_verif (fun _ _ => []) (fun b => b) (fun _ m => m) (fun _ _ => repeat 0 16%nat)
+    x07_a unit (fun _ _ => Ok [1]) (fun b => Ok b) (fun k => k) keys false
+    (Src3m.mkW OUntouched OUntouched []).
+Definition x07_is_ekey {A} (r : res A) : bool := match r with Err EKey => true | _ => false end.
+Example C07_example_key_refused_src :
+  (exists h rest, Archive.read_header Src.BINCODE_MAX_DESERIALIZE_verif x07_a = Ok (h, rest) /\ has_bit (h_layers h) L_ENCRYPT = false) /\
+  SrcTie3Cmds2Open.cli_keys unit (fun _ _ => Ok [1]) (fun b => Ok b) (fun k => k) (Some [tt]) (Src3m.mkW OUntouched OUntouched []) = Ok [[1]] /\
+  is_ok (snd (x07_open None)) = true /\
+  fst (x07_open (Some [tt])) = Src3m.mkW OUntouched OUntouched [] /\ x07_is_ekey (snd (x07_open (Some [tt]))) = true /\
+  is_ok (snd (x07_open_failsafe None)) = true /\
+  fst (x07_open_failsafe (Some [tt])) = Src3m.mkW OUntouched OUntouched [] /\ x07_is_ekey (snd (x07_open_failsafe (Some [tt]))) = true.
+Proof.
+  split; [|repeat (match goal with |- _ /\ _ => split end); vm_compute; reflexivity].
+  destruct (Archive.read_header Src.BINCODE_MAX_DESERIALIZE_verif x07_a) as [[h rest]|e|c] eqn:E; [|vm_compute in E; discriminate E..].
+  exists h, rest. split; [reflexivity|]. vm_compute in E. injection E as <- _. reflexivity.
+Qed.
+Print Assumptions C07_example_key_refused_src.
